@@ -475,6 +475,60 @@ def am_tilt(chk, prog):
     chk.ob("AM-TILT", f.ref + "::2-D", "roll and pitch of every row of am_estimation(A) are the tilt angles of that row", many, construct="tilt angles [2-D]", **kw)
 
 
+def reference_unit(chk, prog):
+    """REF-UNIT: the EKF compares a NORMALISED magnetometer sample with h(q), the magnetic reference rotated into the sensor frame; the reference therefore has to be
+    a unit vector whatever way it was given.  At every exit of EKF._set_reference_frames the value of self.m_ref is X / norm(X) (value numbers; join members are
+    examined one by one); a member that is the caller's vector, merely copied, is a finding; anything else that cannot be shown unit gets no verdict."""
+    from sa.facts import PHI
+    f = prog.func(F + "ekf.py::EKF._set_reference_frames")
+    chk.touch(f)
+    fa = Facts(f, prog).analyse()
+    import re as _re
+
+    def members(v, depth=0):
+        if v in PHI and depth < 6:
+            out = []
+            for m_ in PHI[v]:
+                out += members(m_, depth + 1)
+            return out
+        return [v]
+
+    def strip(v):
+        while True:
+            m_ = _re.match(r"np\.(?:copy|array|asarray|ascontiguousarray)\((.*)\)$", v or "")
+            if not m_:
+                return v
+            v = m_.group(1)
+    n = 0
+    for stmt, st in fa.returns:
+        if st is None:
+            continue
+        n += 1
+        v = st.get("s:m_ref")
+        site = "%s::exit@%s" % (f.ref, getattr(stmt, "lineno", "end"))
+        if v is None:
+            chk.error("REF-UNIT: self.m_ref is not assigned on an exit path of EKF._set_reference_frames (cannot decide)")
+            continue
+        raw, unknown = [], []
+        for m_ in members(v):
+            if ("UNIT", m_) in st["F"]:
+                continue
+            mm = _re.match(r"Div\((.*),norm\((.*)\)\)$", m_)
+            if mm and mm.group(1) == mm.group(2):
+                continue
+            (raw if (strip(m_) or "").startswith("P:") else unknown).append(m_)
+        if raw:
+            why = "on this exit self.m_ref can be `%s`: the caller's vector, copied but not divided by its norm; h() then predicts a field of that magnitude against a unit measurement" % raw[0][:60]
+            chk.record("REF-UNIT", site, "self.m_ref is a unit vector at exit", verdict="VIOLATION", detail=why)
+            chk.finding("REF-UNIT", f.module.rel, f.qname, "magnetic reference not normalised", why, line=f.node.lineno)
+        elif unknown:
+            chk.error("REF-UNIT: self.m_ref can be `%s` at an exit of EKF._set_reference_frames; its unit norm could not be established (cannot decide)" % unknown[0][:60])
+        else:
+            chk.record("REF-UNIT", site, "self.m_ref is X / norm(X) on every path to this exit")
+    if n == 0:
+        chk.error("REF-UNIT: EKF._set_reference_frames has no normal exit")
+
+
 def blends(chk, prog):
     # complementary filter: weights sum to one
     f = prog.func(F + "complementary.py::Complementary._compute_all")
@@ -706,6 +760,7 @@ def run(chk, prog, tier):
     madgwick(chk, prog)
     mahony(chk, prog)
     ekf(chk, prog)
+    reference_unit(chk, prog)
     blends(chk, prog)
     am_tilt(chk, prog)
     from props.c04 import oleq
